@@ -29,6 +29,11 @@ type Prog struct {
 	SSA     *ssa.Program
 	SSAPkgs map[string]*ssa.Package
 	Whole   bool // whole-program SSA (thorough tier)
+	// Overlay is set on a program produced by NormaliseNewFunctions: file name -> content that
+	// replaces the file on disk (an equivalent rewriting of the current source).
+	Overlay       map[string][]byte
+	loadedOverlay map[string][]byte
+	recoverChecked, recoverUsed bool
 
 	allFuncs []*ssa.Function // module functions incl. anonymous, sorted by position
 }
@@ -41,6 +46,10 @@ func Load(repo string, whole bool, extraEnv ...string) (*Prog, error) {
 // LoadPatterns loads the given package patterns (used by thorough tiers for a second
 // configuration such as GOARCH=386 on a sub-tree).
 func LoadPatterns(repo string, patterns []string, minPkgs int, whole bool, extraEnv ...string) (*Prog, error) {
+	return loadWith(repo, patterns, minPkgs, whole, nil, extraEnv...)
+}
+
+func loadWith(repo string, patterns []string, minPkgs int, whole bool, overlay map[string][]byte, extraEnv ...string) (*Prog, error) {
 	mode := packages.NeedName | packages.NeedFiles | packages.NeedCompiledGoFiles | packages.NeedImports |
 		packages.NeedDeps | packages.NeedTypes | packages.NeedTypesSizes | packages.NeedSyntax |
 		packages.NeedTypesInfo | packages.NeedModule
@@ -50,6 +59,9 @@ func LoadPatterns(repo string, patterns []string, minPkgs int, whole bool, extra
 		Tests: false,
 		Env:   append(os.Environ(), extraEnv...),
 		Fset:  token.NewFileSet(),
+	}
+	if len(overlay) > 0 {
+		cfg.Overlay = overlay
 	}
 	if !whole {
 		// LoadSyntax semantics: syntax+types-info only for the root packages; deps from export data.
